@@ -123,6 +123,11 @@ class Resp:
         return self._text
 
     async def iter_chunks(self):
+        if self._chunks is None:
+            # a reply that is not a block (a refusal page): its body is what a reader would get
+            if self._text:
+                yield self._text.encode(), True
+            return
         for n, part in enumerate(self._chunks):
             if self._cut_after is not None and n == self._cut_after:
                 raise aiohttp.ServerDisconnectedError()
